@@ -352,7 +352,13 @@ def _summarise(case):
         tr = gen.make_track([(p[0], p[1], 0.0) for p in t])
         # user identifiers are numbers or text (the documented pseudo-feature 'uid' is counted per cell)
         tr.uid = (k + 1) if len(case["tracks"]) % 2 else "user-%d" % (k + 1)
-        tr.createAnalyticalFeature(FN, [float("nan") if p[2] is None else p[2] for p in t])
+        col_ = [float("nan") if p[2] is None else p[2] for p in t]
+        if (len(t) + k + len(case["tracks"])) % 4 == 1:
+            # the values (NaN included) held as numpy scalars, as list(array) hands them out
+            import numpy as np
+            col_ = [np.float64(v) for v in col_]
+            M.CTX.count("values_held_as_numpy_scalars")
+        tr.createAnalyticalFeature(FN, col_)
         tr.createAnalyticalFeature("w", [float("nan") if p[2] is None else p[2] for p in t])
         if (len(t) + k + len(case["tracks"])) % 3 == 0:
             uid = tr.uid
